@@ -294,6 +294,30 @@ def knownC01 (ls : List Label) (r : Option String) : Option String :=
     | some (true, 0, 0) => if !hookFails.isEmpty && allRetried then some "F-C01" else none
     | _ => none
 
+/-- C10, run level, on the log of a real run: everything of a scenario (events sent, user code entered or left, attempt
+    ends) happens while the silent panic hook is installed; the hook is taken once, put back once, before `execute`
+    returns; the last event sent is run-Finished. States: 0 before `HOOK take`, 1 taken, 2 restored, 3 returned. -/
+def hookWindow (ls : List Label) : Option String :=
+  let step : (Nat × Option String) → Label → (Nat × Option String) := fun a l =>
+    let st := a.1
+    if a.2.isSome then a else
+    match l with
+    | .hookTake => if st == 0 then (1, none) else (st, some "panic hook taken twice, or after the run")
+    | .hookRestore => if st == 1 then (2, none) else (st, some "panic hook restored without being taken")
+    | .exit => if st == 2 then (3, none) else (st, some "execute returned without restoring the panic hook")
+    | .tx (.scen _ _ _) => if st == 1 then a else (st, some "scenario event sent outside the silenced window")
+    | .cbIn .. => if st == 1 then a else (st, some "user code entered outside the silenced window")
+    | .cbOut .. => if st == 1 then a else (st, some "user code left outside the silenced window")
+    | .endA .. => if st == 1 then a else (st, some "attempt ended outside the silenced window")
+    | _ => a
+  let r := ls.foldl step (0, none)
+  match r.2 with
+  | some e => some e
+  | none =>
+    if r.1 != 3 then some s!"the run did not return with the hook restored (state {r.1})"
+    else if (txEvents ls).getLast? != some Ev.finished then some "the last event sent is not run-Finished"
+    else none
+
 def showMon (id : String) (known : Option String) (r : Option String) : String :=
   match r with
   | none => "ok"
